@@ -249,6 +249,10 @@ Fixpoint build_names (n : nat) (i : N) (name_of : N -> Mst bstr) : Mst (list bst
 Definition extend {A} (l : list A) (n : N) (x : A) : list A :=
   l ++ repeat x (N.to_nat (n - nlen l)).
 
+Definition no_analog_anywhere (ga : group) (newA : list bstr) (fs : list frame) : bool :=
+  (nlen (g_params ga) =? 0) && (nlen newA =? 0) &&
+  match fs with f0 :: _ => match fr_subs f0 with sf0 :: _ => nlen sf0 =? 0 | [] => true end | [] => true end.
+
 Definition update_parameters (newP newA : list bstr) : Mst unit :=
   s <- getS ;;
   let nfr := nlen (frames s) in
@@ -281,10 +285,13 @@ Definition update_parameters (newP newA : list bstr) : Mst unit :=
         upd_param nm_POINT nm_LABELS (fun p => set_strs p labels []) ;;;
         upd_param nm_POINT nm_DESCRIPTIONS (fun p => set_strs p (repeat [] (N.to_nat npts)) []) ;;;
         upd_param nm_POINT nm_UNITS (fun p => set_strs p (repeat str_mm (N.to_nat npts)) [])) ;;;
-  (* analogs *)
+  (* analogs: nothing to follow when the ANALOG group holds no parameter at all (a file may come so), no channel is being
+     declared and the data hold no analog sample *)
   s1 <- getS ;;
   _ <- lift (group_idx (groups s1) nm_ANALOG) ;;
-  nan <- (match frames s with
+  ga0 <- get_group nm_ANALOG ;;
+  when (negb (no_analog_anywhere ga0 newA (frames s)))
+   (nan <- (match frames s with
           | f0 :: _ => match fr_subs f0 with
                        | sf0 :: _ => ret (nlen sf0)
                        | [] => ret 0
@@ -319,7 +326,7 @@ Definition update_parameters (newP newA : list bstr) : Mst unit :=
         g4 <- get_group nm_ANALOG ;;
         pun <- lift (param_named g4 nm_UNITS) ;;
         un <- lift (values_as_string pun) ;;
-        upd_param nm_ANALOG nm_UNITS (fun p => set_strs p (extend un nan str_V) [])) ;;;
+        upd_param nm_ANALOG nm_UNITS (fun p => set_strs p (extend un nan str_V) []))) ;;;
   update_header true.
 
 (* ---------- public mutators ---------- *)
